@@ -24,7 +24,7 @@ func init() {
 }
 
 var filters = []string{"a/b/", "b/a/", "a/a/", "b/b/", "x/x/y/", "y/", "a/", "a/+/"}
-var probes = []string{"a/b/", "b/a/", "a/a/", "b/b/", "x/x/y/", "y/", "a/", "a/b/c/", "x/x/"}
+var probes = []string{"a/b/", "b/a/", "a/a/", "b/b/", "c/c/", "x/x/y/", "y/", "a/", "a/b/c/", "x/x/"}
 var mqttFilters = []string{"a/b/", "b/a/", "a/+/", "a/#/", "a/", "#/"}
 
 type opDesc struct {
@@ -71,6 +71,19 @@ func alphabet(mode string) []opDesc {
 	return ops
 }
 
+// collisionAlphabet: one connection juggling three (and two) filters that share a bookkeeping bucket
+// (equal xor-fold): a/a, b/b, c/c and x/x/y, y. Deep histories are affordable because little else varies.
+func collisionAlphabet() []opDesc {
+	var ops []opDesc
+	for _, k := range []string{"sub", "unsub"} {
+		for _, f := range []string{"a/a/", "b/b/", "c/c/", "x/x/y/", "y/"} {
+			ops = append(ops, opDesc{Kind: k, Client: 0, Filter: f})
+		}
+	}
+	ops = append(ops, opDesc{Kind: "sub", Client: 1, Filter: "b/b/"}, opDesc{Kind: "unsub", Client: 1, Filter: "b/b/"})
+	return ops
+}
+
 // ---- instance ------------------------------------------------------------------------------
 
 type workerEnv struct {
@@ -88,7 +101,7 @@ func newWorkerEnv(mode string) *workerEnv {
 	w.rw = w.env.MustKey("#/", security.AllowRead|security.AllowWrite)
 	w.wo = w.env.MustKey("#/", security.AllowWrite)
 	w.ro = w.env.MustKey("#/", security.AllowRead)
-	all := append(append([]string{}, filters...), mqttFilters...)
+	all := append(append([]string{"c/c/"}, filters...), mqttFilters...)
 	for _, f := range all {
 		ch := security.ParseChannel([]byte("k/" + f))
 		ssid := message.NewSsid(w.env.License.Contract(), ch.Query)
@@ -420,7 +433,10 @@ func (in *inst) Close() {
 // ---- driver ------------------------------------------------------------------------------
 
 func search(c *core.Ctx, mode string, depth int) {
-	ops := alphabet(mode)
+	searchOps(c, mode, depth, alphabet(mode), "")
+}
+
+func searchOps(c *core.Ctx, mode string, depth int, ops []opDesc, variant string) {
 	names := make([]string, len(ops))
 	for i, o := range ops {
 		names[i] = o.String()
@@ -444,6 +460,7 @@ func search(c *core.Ctx, mode string, depth int) {
 	if tag == "" {
 		tag = "emitter"
 	}
+	tag += variant
 	c.Add("states", int64(res.States))
 	c.Add("transitions", res.Transitions)
 	c.Add("traces_validated_against_impl", res.Replays)
@@ -456,7 +473,7 @@ func search(c *core.Ctx, mode string, depth int) {
 		c.Sample(map[string]interface{}{"matcher": tag, "history": p})
 	}
 	for _, f := range res.Violations {
-		c.Violate(tag+":"+f.Sig, f.What+" | history: "+strings.Join(f.Path, ", "), map[string]interface{}{"mode": mode, "ops": f.Ops, "history": f.Path})
+		c.Violate(tag+":"+f.Sig, f.What+" | history: "+strings.Join(f.Path, ", "), map[string]interface{}{"mode": mode, "variant": variant, "ops": f.Ops, "history": f.Path})
 	}
 }
 
@@ -466,6 +483,7 @@ func run(c *core.Ctx) {
 		depth = 4
 	}
 	search(c, "", depth)
+	searchOps(c, "", depth+3, collisionAlphabet(), "-collisions")
 	if !c.Quick() {
 		search(c, "mqtt", 3)
 	} else {
@@ -479,13 +497,18 @@ func run(c *core.Ctx) {
 
 func replay(c *core.Ctx, raw json.RawMessage) {
 	var cs struct {
-		Mode string `json:"mode"`
-		Ops  []int  `json:"ops"`
+		Mode    string `json:"mode"`
+		Variant string `json:"variant"`
+		Ops     []int  `json:"ops"`
 	}
 	json.Unmarshal(raw, &cs)
 	w := newWorkerEnv(cs.Mode)
 	defer w.env.Close()
-	in := w.newInst(alphabet(cs.Mode))
+	al := alphabet(cs.Mode)
+	if cs.Variant == "-collisions" {
+		al = collisionAlphabet()
+	}
+	in := w.newInst(al)
 	for _, o := range cs.Ops {
 		in.Apply(o)
 	}
